@@ -46,6 +46,14 @@ CLAIMED["C11"] = (
     "DESIGN.md §5 C11",
 )
 
+CLAIMED["C10"] = (
+    "model_checking",
+    "explicit-state BFS over LIVE sessions (real accept_connection / PeerSession::run / apply_disconnect / timer tasks over loopback TCP, harness = remote speaker) plus fixpoint BFS of the pure GrState machine",
+    "(ii) Every history up to the depth bound of: establish with chosen GR / LLGR / N-bit capabilities, announce (plain and NO_LLGR), End-of-RIB, drop by six reasons (TCP close, Cease, hard reset, non-Cease NOTIFICATION, local admin shutdown, locally detected UPDATE error), failed reconnects closed before / after the OPEN, restart- and LLGR-timer expiry through the code's own one-shot senders, disable / enable, is executed against the real session code with real tables; after every step: stale routes only while a restart timer / that family's LLGR timer is armed or an End-of-RIB is awaited, no helper state after an ineligible drop, non-negotiated families empty, routes of the current session never purged, NO_LLGR routes gone in the LLGR period, failed reconnects leave the timers alone, FSM slots freed. (i) The pure GrState machine is explored to fixpoint with the driver's table/timer calls as reference.",
+    "Quiescence is established by KEEPALIVE barriers on the session's receive counter and by task completion (a timeout there is a machinery error, exit 2). Hold-timer expiry as a drop reason is not enumerated (needs seconds of real time). A received non-Cease NOTIFICATION with the N-bit negotiated is accepted either way (RFC 8538 vs the statement's wording).",
+    "DESIGN.md §5 C10",
+)
+
 REASON_NOT_YET = "no check registered yet in this revision (machinery for it is designed in DESIGN.md §5 but not built/validated); not claimed"
 
 ALL = ["C%02d" % i for i in range(1, 21)]
